@@ -75,9 +75,16 @@ func commandStyleFirst(v *ast.CallExpr) {
 
 // -----------------------------------------------------------------------------
 
-func fncallStartingLowerCase(v *ast.CallExpr) {
+func fncallStartingLowerCase(ctx *formatCtx, v *ast.CallExpr) {
 	switch fn := v.Fun.(type) {
 	case *ast.SelectorExpr:
+		if x, ok := fn.X.(*ast.Ident); ok {
+			if imp, ok := ctx.imports[x.Name]; ok && imp.pkgPath == "unsafe" {
+				if _, o := ctx.scope.LookupParent(x.Name, token.NoPos); o == nil {
+					return // unsafe.Sizeof and friends are not ordinary functions
+				}
+			}
+		}
 		startWithLowerCase(fn.Sel)
 	}
 }
